@@ -214,6 +214,15 @@ def to_grid(v, s):
     return int(x)
 
 
+def digitise_ref(d, res):
+    """rint(d / resolution) * resolution in IEEE binary64, computed independently of numpy: the quotient of the two doubles is
+    formed exactly (Fraction) and rounded once to binary64 (Fraction -> float is correctly rounded), Python's round() is
+    round-half-even on that double, and the product with the resolution is one binary64 multiplication"""
+    from fractions import Fraction
+    q = float(Fraction(float(d)) / Fraction(float(res)))
+    return float(round(q)) * float(res)
+
+
 def units(c):
     """count 0.5 / 1 -> half-units"""
     x = float(c) * 2
